@@ -240,6 +240,15 @@ func renderGraph(g *resolve.Graph) string {
 // ---- predicates (all universes) ---------------------------------------------------
 
 func predicates(client *resolve.LocalClient, g *resolve.Graph, st *modelStats) (string, string, error) {
+	// the root's dependencyManagement
+	mgmt := map[artKey]string{}
+	if rootReqs, err := client.Requirements(context.Background(), g.Nodes[0].Version); err == nil {
+		for _, r := range rootReqs {
+			if o, ok := r.Type.GetAttr(dep.MavenDependencyOrigin); ok && o == "management" {
+				mgmt[artOf(r)] = r.Version
+			}
+		}
+	}
 	// 1. one version per artifact key
 	ver := map[artKey]string{}
 	in := map[resolve.NodeID][]resolve.Edge{}
@@ -250,6 +259,11 @@ func predicates(client *resolve.LocalClient, g *resolve.Graph, st *modelStats) (
 		k.classifier, _ = e.Type.GetAttr(dep.MavenClassifier)
 		if t, ok := e.Type.GetAttr(dep.MavenArtifactType); ok && t != "jar" {
 			k.typ = t
+		}
+		// 8. the root's management replaces the version of every transitive
+		// declaration of the artifact, whatever the declaration says
+		if mv, ok := mgmt[k]; ok && e.From != 0 && e.Requirement != mv {
+			return fmt.Sprintf("transitive edge %s -[%s]-> %s@%s: the root manages this artifact to %s", g.Nodes[e.From].Version.Name, e.Requirement, to.Name, to.Version, mv), "the root's dependencyManagement overrides versions of transitive declarations", nil
 		}
 		if prev, ok := ver[k]; ok && prev != to.Version {
 			return fmt.Sprintf("artifact %v appears with versions %s and %s", k, prev, to.Version), "at most one version per artifact", nil
